@@ -136,3 +136,7 @@ Definition momentum_case (n : nat) (obs : list Z) : bool := list_eqb Z.eqb (leaf
 Definition resume_case (one : list (list Z)) (segs : list (list (list Z))) : bool :=
   list_eqb (list_eqb Z.eqb) one (concat segs).
 Definition key_case (num_samples observed : nat) : bool := Nat.eqb (key_advances num_samples) observed.
+
+(* the sampler's mass_matrix_sqrt entry against its inverse_mass_matrix entry (relative tolerance for the
+   floating-point power) *)
+Definition mass_case (tol s im : Q) : bool := close tol (s * s * im) 1.
